@@ -1,35 +1,39 @@
 PROP = {
     "kani_groups": ["hk_otlp"],
     "smt": [],
-    "level_text": "PARTIAL claim: decides, for the OTLP any-value bridge (data::any_value::EmitValue), that every directly "
-                  "captured scalar is written exactly once, balanced, under the AnyValue member of its type, and that integers "
-                  "beyond OTLP's int64 (u64 above i64::MAX, 128-bit) become decimal text. Structured values (sequences, maps, "
-                  "non-text map keys), the attribute lists of the three encoders, the file and terminal writers and all "
-                  "byte-level JSON/protobuf well-formedness are NOT decided (see outside).",
+    "level_text": "PARTIAL claim: decides, for the OTLP any-value bridge (data::any_value::EmitValue), that directly captured "
+                  "scalars and a table of concrete structured shapes (sequences, text-keyed and null-keyed maps, nested once) "
+                  "are written without panic, balanced, every scalar exactly once, in order, under the AnyValue member of its "
+                  "type, and that integers beyond OTLP's int64 (u64 above i64::MAX, 128-bit) become decimal text. Maps with "
+                  "non-text keys reach todo!() (thorough tier, known finding). Values of symbolic shape, the attribute lists of "
+                  "the three encoders, the file and terminal writers and all byte-level JSON/protobuf well-formedness are NOT "
+                  "decided (see outside).",
     "technique": "bounded model checking (Kani/CBMC) of the real adapter streaming into a recording sval::Stream that checks "
-                 "token balance and the AnyValue member every scalar is written under",
+                 "token balance and the AnyValue member / KeyValue field every token is written under",
     "functions": [
-        "<emit_otlp::data::any_value::EmitValue as sval_ref::ValueRef>::stream_ref and its AnyStream adapter "
-        "(null, bool, i64, f64, text_begin/fragment/end, any_value_begin/end; u64/i128/u128 through sval's default forwarding)",
-        "value_bag sval2 bridge for primitive captures (ValueBag::stream_ref, Sval2Visitor)",
+        "<emit_otlp::data::any_value::EmitValue as sval_ref::ValueRef>::stream_ref and every method of its AnyStream adapter "
+        "(null, bool, i64, f64, text_*, binary_*, seq_*, map_*, any_value_begin/end; u64/i128/u128 through sval's default forwarding)",
+        "value_bag sval2 bridge (ValueBag::stream_ref, Sval2Visitor) for primitive captures and for Value::from_sval",
         "sval::stream_number / sval::Display for u64, i128, u128 (core::fmt integer formatting at the pinned extremes)",
     ],
-    "bounds": "one scalar per run: null, bool (both), i64 (all), f64 (all n + 0.5 for 32-bit n), text in {\"\", \"ab\"}, "
-              "u64 <= i64::MAX (all), u64 in {i64::MAX + 1, u64::MAX}, i128::MIN, u128::MAX; text compared by first byte and length",
-    "outside": "structured values — sequences, maps, nested values, map keys of any kind (incl. the todo!() for non-text keys "
-               "seen by reading any_value.rs:186-300), binary: emit::Value::from_sval erases value and stream behind dyn "
-               "(sval_dynamic) and CBMC explores every sval implementor of the binary; a container of <= 2 scalars did not "
-               "leave symbolic execution in 15 min (harnesses c13_t_any_value_*_depth1 kept for the thorough tier to repeat "
-               "the measurement). Attribute lists of the logs/traces/metrics encoders (duplicate and well-known keys; metric "
-               "attributes are not de-duplicated by reading metrics.rs:90-108), emit_term's sparkline arithmetic, the file "
-               "writer: not built. Byte-level well-formedness of the JSON/protobuf output and decoding with the official "
-               "schema (sval_json, sval_protobuf, float formatting, prost): third-party trait-object streaming, not encodable "
-               "within reach",
+    "bounds": "scalars, one per run: null, bool (both), i64 (all), f64 (all n + 0.5 for 32-bit n), text in {\"\", \"ab\"}, "
+              "u64 <= i64::MAX (all), u64 in {i64::MAX + 1, u64::MAX}, i128::MIN, u128::MAX; structured values: the 18 concrete "
+              "token sequences of c13_anyvalue.rs SHAPES (scalar; empty / 2-element / nested sequences; empty, 1- and 2-entry maps "
+              "with text keys, a null key, sequence and map values, a map inside a sequence; thorough: one map per non-text key "
+              "kind bool, i64, f64, bytes, sequence, map) with fixed scalar payloads; text compared by first byte and length",
+    "outside": "values of SYMBOLIC shape: emit::Value::from_sval erases value and stream behind dyn (sval_dynamic) and with a "
+               "symbolic token sequence CBMC explores every sval implementor of the binary — a container of <= 2 scalars did not "
+               "leave symbolic execution in 15 min (c13_t_any_value_*_depth1 kept in the thorough tier to repeat the measurement); "
+               "hence no 'for all sequences' claim, only the table. Attribute lists of the logs/traces/metrics encoders "
+               "(duplicate and well-known keys; by reading metrics.rs:90-108 metric attributes are not de-duplicated), "
+               "emit_term's sparkline index arithmetic, the rolling-file writer, TraceId/SpanId raw encoders: not built. "
+               "Byte-level well-formedness of the JSON/protobuf output and decoding with the official schema (sval_json, "
+               "sval_protobuf, float formatting, prost): third-party trait-object streaming, not encodable within reach",
     "stubs": [
         "verif::stream_any_value: pub door to the crate-private EmitValue adapter (inject/otlp.rs)",
         "kani -Z restrict-vtable (virtual calls restricted to functions present in a vtable of the trait method)",
     ],
     "assumptions": [],
-    "timeout": {"quick": 600, "thorough": 1800},
-    "slow_first": [r"u64_beyond"],
+    "timeout": {"quick": 600, "thorough": 1200},
+    "slow_first": [r"u64_beyond", r"depth1"],
 }
